@@ -153,9 +153,13 @@ def check_helpers(ctx, f, rep, rule, which):
             enc = [c for c in p.calls() if c['decl'] == 'codec::Codec::encode_member']
             good = good and len(enc) == 1 and enc[0]['args'][1] == ('ref', ('local', 0, 2), False) and \
                 enc[0]['args'][0] == ('ref', q.self_field('codec'), True)
-            if p.end == 'return' and not q.path_is_error_propagation(p):
-                r = p.ret
-                good = good and r[0] == 'agg' and r[3] == 'Ok'
+            if p.end == 'return' and p.ret[0] == 'agg' and p.ret[3] == 'Ok' and enc:
+                # the bytes returned are the buffer the member was encoded into
+                v = p.ret[5][0]
+                bufref = enc[0]['args'][2]
+                good = good and bufref[0] == 'ref' and v[0] == 'havoc' and v[1] == bufref[1]
+            elif p.end == 'return' and p.ret[0] == 'agg' and p.ret[3] not in ('Ok', 'Err'):
+                good = False
         rep.check(good, rule, b.nname, 'serialize_member(m) = codec.encode_member(&m, fresh Vec) and returns those bytes',
                   construct='helper')
     if 'choose_members' in which:
